@@ -2,13 +2,14 @@
    decode appears under a release key (written by something other than the driver, or
    damaged).  Used by C10 (List/Query skip it, Get fails) and C20.  Definitions only. *)
 From Coq Require Import List String Bool Arith NArith.
-From Helm Require Import Common.Assoc Common.Strs Storage.Spec Storage.Kube.
+From Helm Require Import Common.Assoc Common.Strs Storage.Spec Storage.Kube Storage.Rmw.
 Import ListNotations.
 Open Scope string_scope.
 
 Inductive xop :=
 | XOp (o : op)
-| XCorrupt (name : string) (ver : nat) (status : string).
+| XCorrupt (name : string) (ver : nat) (status : string)
+| XRmw (name : string) (ver : nat) (status : string).    (* Rmw.rmw: query, change status, update *)
 
 Section KubeX.
   Variable B : Type.
@@ -25,6 +26,7 @@ Section KubeX.
     match x with
     | XOp o => kube_step B enc dec valid_label_value s o
     | XCorrupt n v st => (aset (make_key n v) (corrupt_object n v st) s, ROk)
+    | XRmw n v st => rmw (kube_step B enc dec valid_label_value) s n v st
     end.
 
   Fixpoint kube_xrun (s : kube B) (xs : list xop) : list out :=
